@@ -266,7 +266,8 @@ PAIRS = [
     Pair("direct-1d-vs-2d-for-class", AFD + "_annotate_direct_instance_features_for_class",
          IRF + "_annotate_2d_direct_instance_features_for_class",
          subs=[(r"\[_C_MAP_POS_DIRECT\]", ""), (r"_introduce_needed_direct_elements_in_2d_shape_classes_dict", "_introduce_needed_elements_in_shape_classes_dict")],
-         props=("C14",), why="the direct half under inverse_paths equals the direct-only strategy modulo the container position"),
+         props=("C14",), why="the direct half under inverse_paths equals the direct-only strategy modulo the container position",
+         deep_subs=[(r"\[_C_MAP_POS_DIRECT\]", "")]),
     Pair("direct-1d-vs-2d-introduce", AFD + "_introduce_needed_elements_in_shape_classes_dict",
          IRF + "_introduce_needed_direct_elements_in_2d_shape_classes_dict", subs=[(r"\[_C_MAP_POS_DIRECT\]", "")], props=("C14",)),
     Pair("direct-1d-vs-2d-instance", AFD + "_annotate_direct_instance_features", IRF + "_annotate_2d_direct_instance_features",
